@@ -131,7 +131,9 @@ PROPS = {
         "rule": WORLD_RULE, "assumptions": WORLD_ASSUMPTIONS,
     },
     "C02": {
-        "lean_modules": ["Perp.Props.EngineMoney", "Perp.Props.Dispatch", "Perp.Props.CurveNoFlip", "Perp.Props.WorldInv"],
+        "lean_modules": ["Perp.Props.EngineMoney", "Perp.Props.Dispatch", "Perp.Props.CurveNoFlip", "Perp.Props.WorldInv",
+                         "Perp.Props.Mirror.Sum", "Perp.Props.Mirror.Walk", "Perp.Props.Mirror.Exec", "Perp.Props.Mirror.VammSide",
+                         "Perp.Props.Mirror.Flow", "Perp.Props.Mirror.Run", "Perp.Props.Mirror.Tx", "Perp.Props.MirrorInv"],
         "runs": lambda tier, seed: world_runs(tier, seed),
         "rule": WORLD_RULE, "assumptions": WORLD_ASSUMPTIONS,
     },
